@@ -16,7 +16,8 @@ Inductive prog2 :=
 | QIf (c : expr) (body : prog2) (rest : prog2)
 | QIfE (c : expr) (body ebody : prog2) (rest : prog2)
 | QWhile (c : expr) (body : prog2) (rest : prog2)
-| QFor (down : bool) (v : nat) (lo hi : expr) (body : prog2) (rest : prog2).
+| QFor (down : bool) (v : nat) (lo hi : expr) (body : prog2) (rest : prog2)
+| QExit (off : Z) (rest : prog2).       (* exit repeat: the forward jump of SpecNest.PExit, also out of a counting loop *)
 
 (* p followed by q *)
 Fixpoint papp (p q : prog) : prog :=
@@ -42,6 +43,7 @@ Fixpoint desugar (q : prog2) : prog :=
   | QWhile c a r => PWhile c (desugar a) (desugar r)
   | QFor down v lo hi a r =>
     PStmt (for_init v lo) (PWhile (for_cond down v hi) (papp (desugar a) (PStmt (for_step down v) PNil)) (desugar r))
+  | QExit off r => PExit off (desugar r)
   end.
 
 Definition code2 (q : prog2) : bytes := compile_p (desugar q).
@@ -76,6 +78,7 @@ Fixpoint final_k (keep : bool) (en : env) (props : list string) (pc : Z) (q : pr
                       (Some (reify_e en pc lo)) (Some (reify_e en (ps + 2) hi))
                       (name_of (nth v (e_locals en) (Leaf KLocal "" 0 true))) (if down then "-" else "+")) in
     (if keep then [reify_s en props pc (for_init v lo)] else []) ++ loopst :: final_k keep en props (pe + 2) r
+  | QExit _ r => Stmt pc (ExitRepeat pc) :: final_k keep en props (pc + 3) r
   end.
 Definition final (en : env) (props : list string) (pc : Z) (q : prog2) : list node := final_k false en props pc q.
 
@@ -91,6 +94,7 @@ Fixpoint inits (en : env) (props : list string) (pc : Z) (q : prog2) : list node
     let ps := pc + zlen (compile_s (for_init v lo)) in
     let pe := ps + zlen (compile_e (for_cond down v hi)) + 3 + zlen (code2 a) + zlen (compile_s (for_step down v)) in
     reify_s en props pc (for_init v lo) :: inits en props (pe + 2) r
+  | QExit _ r => inits en props (pc + 3) r
   end.
 
 (* side conditions: plain while loops have conditions loop_detect cannot misread; the counting variable is a local
@@ -104,4 +108,5 @@ Fixpoint ok2 (en : env) (q : prog2) : Prop :=
   | QWhile c a r => (forall pc, wcond_ok (reify_e en pc c) = true) /\ ok2 en a /\ ok2 en r
   | QFor _ v _ _ a r =>
     match nth v (e_locals en) (Leaf KLocal "" 0 true) with Leaf KLocal _ _ _ => True | _ => False end /\ ok2 en a /\ ok2 en r
+  | QExit _ r => ok2 en r
   end.
